@@ -52,6 +52,8 @@ FREE = {'quick': [('once:16', 25), ('once:2', 25), ('atomic*16:I,D,W1000', 25), 
                      ('rng*16:C,R32,S7,K,V,X', 200), ('rng*8:C,R32,X,C,K,X', 200), ('rng:C,R32,X|V,V,V|C,X,C,X', 200),
                      ('rng*2:C,S32,X', 200), ('rng*3:V,C,R7,X', 200), ('rng:V|C,X', 300), ('rng*4:c,R32,X', 200)]}
 
+FREE_TIMEOUT = 240
+
 def symbolise(binpath, msg):
     pcs = re.findall(r'@(0x[0-9a-f]+)', msg)
     if not pcs:
@@ -120,14 +122,23 @@ def run(tier):
     env = dict(os.environ, TSAN_OPTIONS='exitcode=66:halt_on_error=0:report_signal_unsafe=0')
     def fr(p):
         prog, it = p
-        r = subprocess.run([free, prog, str(it), str(vf.SEED)], stdout=subprocess.PIPE, stderr=subprocess.STDOUT, text=True, env=env)
+        # normal duration: < 10 s per program; a run that does not finish is a liveness failure (some thread never returns)
+        try:
+            r = subprocess.run([free, prog, str(it), str(vf.SEED)], stdout=subprocess.PIPE, stderr=subprocess.STDOUT, text=True, env=env,
+                               timeout=FREE_TIMEOUT)
+        except subprocess.TimeoutExpired as e:
+            out = e.stdout.decode('utf-8', 'replace') if isinstance(e.stdout, bytes) else (e.stdout or '')
+            return prog, it, 'hang', out
         return prog, it, r.returncode, r.stdout
     with ThreadPoolExecutor(4) as ex:
         fres = list(ex.map(fr, FREE[tier]))
     nfree = 0
     for prog, it, rc, out in fres:
         nfree += it
-        if rc != 0:
+        if rc == 'hang':
+            chk.violation('free:hang:' + prog.split(':')[0], {'free': True, 'prog': prog, 'iters': it},
+                          'free-running harness %s did not terminate within %d s (normally < 10 s): some thread never returns\n%s' % (prog, FREE_TIMEOUT, out[:1500]))
+        elif rc != 0:
             m = re.search(r'SUMMARY: ThreadSanitizer: (.*)', out)
             what = m.group(1) if m else out[-300:]
             what = re.sub(r':\d+(:\d+)?', '', what)
@@ -147,7 +158,11 @@ def replay(rec):
     ctl, free = binaries()
     if rec.get('free'):
         env = dict(os.environ, TSAN_OPTIONS='exitcode=66:halt_on_error=0:report_signal_unsafe=0')
-        r = subprocess.run([free, rec['prog'], str(max(rec.get('iters', 50), 50)), '1'], stdout=subprocess.PIPE, stderr=subprocess.STDOUT, text=True, env=env)
+        try:
+            r = subprocess.run([free, rec['prog'], str(max(rec.get('iters', 50), 50)), '1'], stdout=subprocess.PIPE, stderr=subprocess.STDOUT, text=True, env=env,
+                               timeout=2 * FREE_TIMEOUT)
+        except subprocess.TimeoutExpired:
+            return 'free-running harness %s did not terminate within %d s' % (rec['prog'], 2 * FREE_TIMEOUT)
         if r.returncode != 0:
             m = re.search(r'SUMMARY: ThreadSanitizer: (.*)', r.stdout)
             return 'ThreadSanitizer: ' + (m.group(1) if m else r.stdout[-300:])
